@@ -137,7 +137,15 @@ def c07_balance(nfr, free, fixed=None, workers=2, watcher=False, planted=None, m
             p.add(n, sources=f'tcp://localhost:{5550 + 2 * i}', outputs=f'tcp://*:{5560 + 2 * i}', behave=passf, outputs_required='J', proc_time=T.get('p' + n, 0))
         p.add('J', sources=', '.join(f'tcp://localhost:{5560 + 2 * i}' for i in range(workers)), sources_balance=True, behave=lambda s, f: None)
         if watcher: p.add('V', sources='tcp://localhost:5550??', behave=lambda s, f: None)
-        done = lambda: sum(len(p.log[n]) for n in names) >= nfr and p.log['J'] and p.log['J'][-1].get('main') == max(x['main'] for n in names for x in p.log[n])
+        def s_publishes():
+            # (msg id, output address) of every data message the splitter put on one of its PUB sockets
+            return [(m[1].d['mid'], sk.addr) for sk in p.net.sockets if sk.kind == simnet.PUB and sk.owner_name == 'S' for _, m in sk.sent if m[0] != b'//']
+        def done():
+            if sum(len(p.log[n]) for n in names) >= nfr and p.log['J'] and p.log['J'][-1].get('main') == max(x['main'] for n in names for x in p.log[n]): return True
+            # frames may legitimately be discarded downstream (a balanced joiner drops ids below the last one it returned): stop 1.5 s after the last publish of the splitter
+            pt = [t for sk in p.net.sockets if sk.kind == simnet.PUB and sk.owner_name == 'S' for t, m in sk.sent if m[0] != b'//']
+            return len(set(s_publishes_ids())) >= nfr and bool(p.net.now > max(pt) + 1500)
+        s_publishes_ids = lambda: [i for i, _ in s_publishes()]
         p.net.stop_when = done
         p.run(); finish(p, max_steps)
         e.observed('balance'); e.path_info.update(J=p.log['J'], **{n: p.log[n] for n in names})
@@ -147,7 +155,14 @@ def c07_balance(nfr, free, fixed=None, workers=2, watcher=False, planted=None, m
             for x in p.log[n]:
                 if x['main'] in seen: e.fail('two-branches', f'frame {x["main"]} went to {seen[x["main"]]} and {n} (timing {T})', {'kind': 'two-branches', 'level': 'S'})
                 seen[x['main']] = n
-        if sorted(seen) != list(range(nfr)): e.fail('frame-not-dispatched', f'frames dispatched {sorted(seen)} of {nfr}', {'kind': 'frame-not-dispatched', 'level': 'S'})
+        # the property is about the splitter: every published frame on exactly one output (what a worker does with it afterwards - a late frame is discarded
+        # when the joiner has already moved on - is not a dispatch failure)
+        outs = {}
+        for mid, addr in s_publishes():
+            if mid in outs and outs[mid] != addr: e.fail('two-branches', f'frame id {mid} published on outputs {outs[mid]} and {addr} (timing {T})', {'kind': 'two-branches', 'level': 'S'})
+            outs[mid] = addr
+        if outs and sorted(outs) != list(range(max(outs) + 1)):
+            e.fail('frame-not-dispatched', f'splitter published ids {sorted(outs)}: an id was skipped (frames produced {p.sent["S"]})', {'kind': 'frame-not-dispatched', 'level': 'S'})
         js = [x['main'] for x in p.log['J']]
         if len(js) != len(set(js)): e.fail('duplicate', f'joiner saw {js}', {'kind': 'duplicate', 'level': 'S'})
         if js != sorted(js): e.fail('order', f'joiner saw {js} (timing {T})', {'kind': 'order', 'level': 'S'})
